@@ -98,7 +98,9 @@ fuzz_target!(init: {
                 Err(_) => {
                     RT.with(|rt| *rt.borrow_mut() = None);
                     let (loc, msg) = LAST.lock().unwrap_or_else(|e| e.into_inner()).take().unwrap_or_default();
-                    let sig = format!("panic:{}:{}", short_loc(&loc), msg.lines().next().unwrap_or(""));
+                    // the same input tag as the harness (known finding C06-F18)
+                    let tag = if roto_verif::props::c06::declares_enum_without_variants(&src) { ":input-declares-an-enum-without-variants" } else { "" };
+                    let sig = format!("panic:{}:{}{tag}", short_loc(&loc), msg.lines().next().unwrap_or(""));
                     if allow().iter().any(|subs| subs.iter().all(|s| sig.contains(s.as_str()))) {
                         None
                     } else {
